@@ -11,6 +11,7 @@ func init() {
 			"PV-GO: goroutines write only their own slot; parent reads after Wait",
 			"PV-FRESH: compiled templates are never cached across stages/evaluations; MO: a map loop that acts on elements and can stop early; the distinct rule (labels examined in written order)",
 			"PV-FRESH JSON path stack; the key encoders are a pure function of the label set (no per-process seed)",
+			"label_format applies its renames in written order (a list, not a map); one label set has one stream key",
 		},
 		NotDecided: []string{"the race detector's dynamic view", "ties in unstable sorts (the property excludes equal timestamps)", "64-bit hash collisions", "map stores inside a region are assumed to hit distinct keys (commutative)"},
 		Rules: func(r *Run) {
